@@ -4,8 +4,15 @@
      * every built-in function type with a `mutExecution` field:
          - ProcessBuiltinFunction starts with  mutExecution.RLock(); defer mutExecution.RUnlock()  (so the read
            lock is released on every return path) and calls the mutex nowhere else; it writes no receiver field;
-         - SetNewGasConfig is  guard* ; Lock ; field := ... (only plain assignments) ; Unlock  and is the only
-           method that writes the gas fields;
+         - SetNewGasConfig is  guard* ; Lock ; field := ... (only plain assignments) ; Unlock  (the Unlock by a
+           call or by a defer: the table lists what the setter EXECUTES, in that order) and is the only method that
+           writes the gas fields;
+         - the table is read per control-flow path (tools/srcgen/locks.go): a path that returns before it touches
+           the receiver is no path of the discipline, the others must all agree; own unexported one-line wrappers
+           of a mutex call count as that call where they are called;
+         - the mutex is a sync.RWMutex field, or a *sync.RWMutex that every literal of the type initialises with a
+           fresh &sync.RWMutex{} while nothing can create the type in any other way and nobody else touches the
+           field ([mutex_field_ok]);
          - a gas field is read only by ProcessBuiltinFunction and by unexported helpers that are reachable from
            ProcessBuiltinFunction and from no other exported method, are not referenced from outside the type,
            never passed as method values, and touch the mutex nowhere (no re-entrant locking);
@@ -17,8 +24,9 @@
        whenever it writes, `values` is used in no other way, and the six methods of the model have the model's
        lock mode and access pattern;
      * builtInFunctions/container.go goes through exactly the MutexMap method the model's [container_plan] names;
-     * atomic/*.go: each method is ONE sync/atomic primitive on the single field (or one call of such a method),
-       the field is never accessed plainly, and the primitive is the one the model's step function describes.
+     * atomic/*.go: each method performs on each of its paths at most ONE operation, a sync/atomic primitive on the
+       single field or a call of such a method (resolved through the own methods down to the primitives), the
+       field is never accessed plainly, and the primitives are the ones the model's step function describes.
 
    The check is a boolean evaluated by vm_compute ([lock_discipline_ok]); soundness lemmas lift it to Prop:
    the programs read off the table are well bracketed ([prog_ok]), every access of every method is part of
@@ -44,6 +52,7 @@ Definition is_nil {A} (l : list A) : bool := match l with [] => true | _ => fals
 Definition strip (p s : string) : option string :=
   if String.prefix p s then Some (String.substring (String.length p) (String.length s - String.length p) s) else None.
 Definition disjoint_s (a b : list string) : bool := forallb (fun x => negb (mem_s x b)) a.
+Definition same_set_s (a b : list string) : bool := forallb (fun x => mem_s x b) a && forallb (fun x => mem_s x a) b.
 
 Lemma mem_s_In x l : mem_s x l = true <-> In x l.
 Proof.
@@ -146,7 +155,8 @@ Definition method_ok (e : exec_type) (m : method_info) : bool :=
   negb (existsb bad_call (mi_calls m))
   && is_nil (mi_addr_taken m)
   && (if String.eqb n SETTER then
-        list_eqb_s (mi_mutex_calls m) ["Lock"; "Unlock"] && is_nil (mi_reads m) && is_nil (mi_calls m) && is_nil (mi_field_calls m)
+        (list_eqb_s (mi_mutex_calls m) ["Lock"; "Unlock"] || list_eqb_s (mi_mutex_calls m) ["Lock"; "defer Unlock"])
+        && is_nil (mi_reads m) && is_nil (mi_calls m) && is_nil (mi_field_calls m)
         && forallb (fun f => existsb (fun s => match s with SA true g => String.eqb f g | _ => false end) (setter_prog e)) (mi_writes m)
       else if String.eqb n PBF then
         mi_rlock_defer_first m && list_eqb_s (mi_mutex_calls m) ["RLock"; "defer RUnlock"] && is_nil (mi_writes m)
@@ -157,8 +167,25 @@ Definition method_ok (e : exec_type) (m : method_info) : bool :=
                  && disjoint_s (mi_writes m) fs
             else true)).
 
+(* the lock itself.  Either the field IS the mutex (sync.RWMutex; its zero value is ready for use), or it is a pointer
+   that every literal of the type (the constructor) sets to a fresh  &sync.RWMutex{}  of its own, while the type comes
+   into being in no other way (no literal without the field, no new(T), no value of type T declared anywhere) —
+   so the pointer is never nil and never shared —; in both cases nobody but the type's own methods, through their
+   receiver, names the field, and these only call it: no method reads, assigns or takes the address of the field
+   (a replaced or handed-over mutex would bracket nothing) *)
+Definition sites_of (e : exec_type) : list (string * string * string) :=
+  filter (fun s => String.eqb (fst (fst s)) (et_type e) || String.eqb (fst (fst s)) "*") mutex_sites.
+Definition mutex_field_ok (e : exec_type) : bool :=
+  forallb (fun m => negb (mem_s "mutExecution" (mi_reads m)) && negb (mem_s "mutExecution" (mi_writes m))
+                    && negb (mem_s "mutExecution" (mi_addr_taken m))) (et_methods e)
+  && if existsb (fun p => String.eqb (fst p) "mutExecution" && String.eqb (snd p) "sync.RWMutex") (et_fields e)
+     then forallb (fun s => negb (String.eqb (snd s) "foreign-use") && negb (String.eqb (snd s) "literal:other")) (sites_of e)
+     else existsb (fun p => String.eqb (fst p) "mutExecution" && String.eqb (snd p) "*sync.RWMutex") (et_fields e)
+          && negb (is_nil (sites_of e))
+          && forallb (fun s => String.eqb (snd s) "literal:init-pointer") (sites_of e).
+
 Definition mutex_type_ok (e : exec_type) : bool :=
-  existsb (fun p => String.eqb (fst p) "mutExecution" && String.eqb (snd p) "sync.RWMutex") (et_fields e)
+  mutex_field_ok e
   && et_has_process e
   && negb (is_nil (gas_fields e))
   && is_nil (et_external_refs e)
@@ -311,19 +338,25 @@ Definition expected_atomics : list (string * string * list (string * list string
   ("Uint32", "uint32", [("Get", [sl_prim "LoadUint32" "StoreUint32" (SLoad N)]); ("Set", [sl_prim "LoadUint32" "StoreUint32" (SStore N 0%N)])]);
   ("Uint64", "uint64", [("Get", [sl_prim "LoadUint64" "StoreUint64" (SLoad N)]); ("Set", [sl_prim "LoadUint64" "StoreUint64" (SStore N 0%N)])]) ].
 
-(* the primitives a method performs on one path: its own single primitive, or those of the own methods it calls
-   (exclusive branches) *)
-Definition method_prims (ms : list at_method) (m : at_method) : list string :=
-  am_prims m ++ flat_map (fun c => match List.find (fun x => String.eqb (am_name x) c) ms with
-                                   | Some x => am_prims x
-                                   | None => ["UNRECOGNISED:self-call"]
-                                   end) (am_self_calls m).
+(* the primitives a method can perform: its own, and those of the own methods it calls, followed down to the
+   primitives (a chain of own methods is at most as long as there are methods: a cycle runs out of fuel).
+   [am_exclusive] says that no path through the method performs more than one of its operations (a primitive or a
+   call of an own method); as this holds for every method, a path performs at most one primitive altogether, and it
+   is one of those the model operation(s) of the method stand for (compared as sets: the order in which the source
+   lists exclusive alternatives says nothing) *)
+Fixpoint prims_of (fuel : nat) (ms : list at_method) (m : at_method) : list string :=
+  match fuel with
+  | O => ["UNRECOGNISED:self calls too deep"]
+  | S k => am_prims m ++ flat_map (fun c => match List.find (fun x => String.eqb (am_name x) c) ms with
+                                            | Some x => prims_of k ms x
+                                            | None => ["UNRECOGNISED:self-call"]
+                                            end) (am_self_calls m)
+  end.
+Definition method_prims (ms : list at_method) (m : at_method) : list string := prims_of (S (List.length ms)) ms m.
 Definition at_method_ok (ms : list at_method) (exp : list (string * list string)) (m : at_method) : bool :=
   negb (am_plain_access m) && am_exclusive m
-  && (Nat.leb (List.length (am_prims m)) 1)
-  && (is_nil (am_prims m) || is_nil (am_self_calls m))
   && match List.find (fun p => String.eqb (fst p) (am_name m)) exp with
-     | Some (_, ps) => list_eqb_s (method_prims ms m) ps
+     | Some (_, ps) => same_set_s (method_prims ms m) ps
      | None => false
      end.
 Definition atomic_type_ok (t : string * list (string * string) * list at_method) : bool :=
@@ -408,7 +441,7 @@ Qed.
 Lemma setter_prog_shape_all :
   forallb (fun e => if has_mutex e
                     then match setter_prog e with
-                         | SL WLock :: r => list_eqb_s (gas_fields e)
+                         | SL WLock :: r => same_set_s (gas_fields e)
                                               (flat_map (fun s => match s with SA true f => [f] | _ => [] end) r)
                                             && Nat.eqb (List.length r) (S (List.length (gas_fields e)))
                          | _ => false
@@ -553,3 +586,25 @@ Example unlocked_reader_rejected :
   /\ prog_ok Out (mm_prog (MM "Insert" ["RLock"; "RUnlock"] true true true false)) = false
   /\ prog_ok Out (mm_prog (MM "Get" ["RLock"; "RUnlock"] false false true false)) = false.
 Proof. repeat split. Qed.
+
+(* own methods are followed down to the primitives; a cycle of own methods is rejected; two operations on one path
+   ([am_exclusive] = false) are rejected whatever they are *)
+Example self_calls_resolved :
+  let ms := [AM "Add" ["AddInt64"] [] false true; AM "Subtract" [] ["Add"] false true; AM "Decrement" [] ["Subtract"] false true] in
+  forallb (at_method_ok ms [("Add", ["AddInt64"]); ("Subtract", ["AddInt64"]); ("Decrement", ["AddInt64"])]) ms = true.
+Proof. reflexivity. Qed.
+Example self_call_cycle_rejected :
+  let ms := [AM "Add" [] ["Subtract"] false true; AM "Subtract" [] ["Add"] false true] in
+  at_method_ok ms [("Add", ["AddInt64"]); ("Subtract", ["AddInt64"])] (AM "Add" [] ["Subtract"] false true) = false.
+Proof. reflexivity. Qed.
+Example two_operations_on_a_path_rejected :
+  let ms := [AM "Get" ["LoadInt64"] [] false true; AM "Set" ["StoreInt64"] [] false true; AM "Reset" [] ["Get"; "Set"] false false] in
+  at_method_ok ms [("Reset", ["LoadInt64"; "StoreInt64"])] (AM "Reset" [] ["Get"; "Set"] false false) = false.
+Proof. reflexivity. Qed.
+(* the setter: what it executes must be  Lock ; assignments ; Unlock  — a deferred Unlock is listed where it runs *)
+Example setter_shapes :
+  (forall p, shape_prog ["Lock"; "assign:gasConfig"; "assign:funcGasCost"; "Unlock"] = Some p -> prog_ok Out p = true)
+  /\ (forall p, shape_prog ["Lock"; "assign:gasConfig"; "Unlock"; "assign:funcGasCost"; "Unlock"] = Some p -> prog_ok Out p = false)
+  /\ (forall p, shape_prog ["RLock"; "assign:gasConfig"; "RUnlock"] = Some p -> prog_ok Out p = false)
+  /\ shape_prog ["Lock"; "defer Unlock"; "assign:gasConfig"] = None.
+Proof. repeat split; intros p H; vm_compute in H; inversion H; reflexivity. Qed.
